@@ -23,6 +23,8 @@ fn devices() -> Vec<String> {
         "{mdt}".into(),
         "/mnt/mdt0\r\n.snap".into(),
         "a\rb\tc".into(),
+        "/mnt/lustre/😀/mdt0".into(),
+        "/mnt/\u{10000}0".into(),
     ]
 }
 
@@ -335,6 +337,43 @@ pub fn run(ctx: &Ctx) -> i32 {
         }
     }
     acc = acc.merge(env);
+    // every Unicode scalar value (all 17 planes) inside the device path: the literal must decode
+    // to the path and nothing else in the program may move
+    {
+        let tree = Expr::and(Expr::Test(Test::Name("x".into())), Expr::Action(Action::FPrint("f".into())));
+        let step: u64 = ctx.tier.pick(1, 1);
+        let sweep = par_cases(0x110000 / step, |i, acc| {
+            let Some(c) = char::from_u32((i * step) as u32) else { return };
+            let dev = format!("/dev/a{c}b");
+            let Ok(h) = fresh(&tree, None) else { return };
+            acc.states += 1;
+            acc.transitions += 1;
+            let wit = || json!({"kind": "c20-char", "char": c as u32});
+            let (Ok(t), Ok(b)) = (h.scheme(&dev), h.scheme("/dev/aqzqb")) else {
+                acc.violate(Violation::new("C20:panic:render", format!("rendering for a path containing U+{:04X} panicked", c as u32), wit()));
+                return;
+            };
+            match (Prog::read(&t), Prog::read(&b)) {
+                (Ok(pt), Ok(pb)) => {
+                    let mut d = vec![];
+                    for (x, y) in pt.forms.iter().zip(pb.forms.iter()) {
+                        diff_leaves(x, y, &mut d);
+                    }
+                    let ok = d.len() == 1 && pt.shape().ok().and_then(|s| s.scan_args.first().and_then(|n| n.as_str().map(|s| s.to_string()))) == Some(dev.clone());
+                    if !ok {
+                        acc.violate(Violation::new(
+                            "C20:device-literal-differs",
+                            format!("path with U+{:04X}: the renderings for {dev:?} and for a plain path differ in {} places ({:?}) or the device literal does not decode to the path", c as u32, d.len(), d.iter().take(2).collect::<Vec<_>>()),
+                            wit(),
+                        ));
+                    }
+                }
+                (Err(e), _) => acc.violate(Violation::new("C20:program-unreadable", format!("path with U+{:04X}: {e}", c as u32), wit())),
+                _ => {}
+            }
+        });
+        acc = acc.merge(sweep);
+    }
     // One compiled value rendered by several threads at once, one device each (what a front end
     // scanning every MDT does).  The schedules are whatever the machine produces: this part is a
     // stress run, NOT an exhaustive exploration (the library has no synchronisation operation a
@@ -398,6 +437,18 @@ pub fn replay(w: &Value) -> Vec<Violation> {
         return vec![];
     }
     let (e, t) = &es[ei];
+    if w["kind"] == "c20-char" {
+        let c = char::from_u32(w["char"].as_u64().unwrap_or(65) as u32).unwrap_or('A');
+        let tree = Expr::and(Expr::Test(Test::Name("x".into())), Expr::Action(Action::FPrint("f".into())));
+        let dev = format!("/dev/a{c}b");
+        if let Ok(h) = fresh(&tree, None) {
+            let ok = h.scheme(&dev).ok().and_then(|t| Prog::read(&t).ok()).and_then(|p| p.shape().ok()).and_then(|s| s.scan_args.first().and_then(|n| n.as_str().map(|s| s.to_string()))) == Some(dev.clone());
+            if !ok {
+                return vec![Violation::new("C20:device-literal-differs", format!("path {dev:?}: the device literal does not decode to the path"), w.clone())];
+            }
+        }
+        return vec![];
+    }
     if w["kind"] == "c20-concurrent" {
         let cdevs: Vec<String> = (0..8).map(|k| format!("/dev/mapper/mdt{k}")).collect();
         if let Some(real) = conv::expr_to_real(e) {
